@@ -387,6 +387,14 @@ func VH_Upgrade(a []int) {
 		zero := int32(0)
 		old.Spec.Replicas = &zero
 		old.Status = asv1.StatefulSetStatus{}
+		if sym.Pick("preexisting.stale", 2) == 1 {
+			// a left-over of an earlier incarnation: other spec fields differ as well
+			old.Spec.ServiceName = "old-svc"
+			old.Spec.PodManagementPolicy = asv1.ParallelPodManagement
+			h := int32(3)
+			old.Spec.RevisionHistoryLimit = &h
+			sym.Cover("pre-existing object differs in more than replicas")
+		}
 		w.adv = []*asv1.StatefulSet{old}
 		sym.Cover("advanced object pre-exists")
 	}
